@@ -53,6 +53,13 @@ Check (C01p_passes_nonvacuous :
   run (plain_let all_on (flatten all_on nv_flat)) = "OK 30 OUT 1 2" /\
   static_arity nv_rest = true /\ run nv_rest = "OK (2 . (3 . ())) OUT 7" /\
   plain_let all_on nv_rest <> nv_rest /\ run (plain_let all_on nv_rest) = "OK (2 . (3 . ())) OUT 7").
+Check (C01p_ceval_unsound_without_rest_guard :
+  exists e, run e = "OK () OUT " /\ run (ceval off_rest_used e) = "ERR OUT " /\ run (ceval all_on e) = "OK () OUT ").
+Check (C01p_ceval_unsound_if_body_returned :
+  exists e, run e = "OK (1 . (2 . ())) OUT 1" /\ run (ceval off_emits_value e) = "ERR OUT 1" /\
+            run (ceval all_on e) = "OK (1 . (2 . ())) OUT 1").
+Check (C01p_ceval_unsound_without_surplus_check :
+  exists e, run e = "OK 1 OUT 7" /\ run (ceval off_surplus e) = "OK 1 OUT " /\ run (ceval all_on e) = "OK 1 OUT 7").
 Print Assumptions C01p_guards_match_source.
 Print Assumptions C01p_flatten_preserves.
 Print Assumptions C01p_flatten_observable.
@@ -68,3 +75,6 @@ Print Assumptions C01p_prune_if_preserves.
 Print Assumptions C01p_prune_if_observable.
 Print Assumptions C01p_prune_if_unsound_if_quote_false_truthy.
 Print Assumptions C01p_passes_nonvacuous.
+Print Assumptions C01p_ceval_unsound_without_rest_guard.
+Print Assumptions C01p_ceval_unsound_if_body_returned.
+Print Assumptions C01p_ceval_unsound_without_surplus_check.
